@@ -563,7 +563,7 @@ class Interp:
                 frame.bb = t["target"]
             elif k == "assert":
                 cond = self.operand(path, frame, t["cond"])
-                path.events.append(("assert", t["kind"], cond, t["span"], body["path"]))
+                path.events.append(("assert", t["kind"], cond, t["span"], body["path"], t["expected"]))
                 frame.bb = t["target"]
             elif k == "switch":
                 forks = self._switch(path, frame, t)
@@ -663,7 +663,7 @@ class Interp:
         fn = f
         name = fn["path"]
         if pol.record_calls:
-            path.events.append(("call", name, args, t["span"], frame.body["path"], fn))
+            path.events.append(("call", name, [self._snap(path, a) for a in args], t["span"], frame.body["path"], fn))
         # user models first
         m = pol.model(fn, args, self, path, t)
         if m is not None:
